@@ -7,37 +7,45 @@ use crate::Rng;
 use alpenglow::consensus::{
     Cert, EpochInfo, FastFinalCert, FinalCert, NotarCert, NotarFallbackCert, PoolEvent, PoolImpl, SkipCert, ValidatorEpochInfo, Vote,
 };
-use alpenglow::crypto::merkle::{BlockHash, GENESIS_BLOCK_HASH};
-use alpenglow::crypto::{Hash, aggsig, signature};
+use alpenglow::crypto::merkle::BlockHash;
+use alpenglow::crypto::{aggsig, signature};
 use alpenglow::network::localhost_ip_sockaddr;
 use alpenglow::types::Slot;
 use alpenglow::{BlockId, Stake, ValidatorIndex, ValidatorInfo};
 use tokio::sync::mpsc;
 
 pub const MAXN: usize = 40;
+/// number of interned block hashes (ids 1..=NHASH; 0 = genesis)
+pub const NHASH: usize = 96;
 pub const KINDS: [&str; 5] = ["notar", "nf", "skip", "sf", "final"];
 
 pub struct Keys {
     pub sks: Vec<signature::SecretKey>,
     pub vsks: Vec<aggsig::SecretKey>,
+    /// public keys of `sks` / `vsks` (computed once: epochs of every size reuse them)
+    pub pks: Vec<signature::PublicKey>,
+    pub vpks: Vec<aggsig::PublicKey>,
     pub hashes: Vec<BlockHash>,
     pub hash_id: HashMap<BlockHash, usize>,
 }
 
 impl Keys {
-    pub fn new(rng: &mut Rng) -> Self {
-        let sks = (0..MAXN).map(|_| signature::SecretKey::new(rng)).collect();
-        let vsks = (0..MAXN).map(|_| aggsig::SecretKey::new(rng)).collect();
-        let mut hashes = vec![GENESIS_BLOCK_HASH];
-        // byte order of the hashes = order of their ids (the pool iterates some sets in hash order)
-        for i in 1..=64u64 {
-            let mut bytes = rng.bytes(32);
-            bytes[..8].copy_from_slice(&i.to_be_bytes());
-            let h: Hash = wincode::deserialize(&bytes).expect("hash");
-            hashes.push(h.into());
-        }
+    pub fn new(rng: &mut Rng) -> Self { Self::with_validators(rng, MAXN) }
+
+    /// keys for `n` validators; the first `MAXN` are the ones `new` generates (the further ones come from a forked
+    /// stream), so vote caches and corpus scenarios do not depend on `n`
+    pub fn with_validators(rng: &mut Rng, n: usize) -> Self {
+        let mut sks: Vec<signature::SecretKey> = (0..MAXN).map(|_| signature::SecretKey::new(rng)).collect();
+        let mut vsks: Vec<aggsig::SecretKey> = (0..MAXN).map(|_| aggsig::SecretKey::new(rng)).collect();
+        let mut more = Rng::new(0xB16_E90C ^ rng.0);
+        for _ in MAXN..n { sks.push(signature::SecretKey::new(&mut more)); vsks.push(aggsig::SecretKey::new(&mut more)); }
+        let pks = sks.iter().map(|k| k.to_pk()).collect();
+        let vpks = vsks.iter().map(|k| k.to_pk()).collect();
+        // adversarial interning (see `advhash`): ids of one group of four differ in a single byte; byte order of the
+        // hashes = order of their ids (the pool iterates some sets in hash order)
+        let hashes: Vec<BlockHash> = (0..=NHASH as u64).map(crate::advhash::block_hash).collect();
         let hash_id = hashes.iter().cloned().enumerate().map(|(i, h)| (h, i)).collect();
-        Self { sks, vsks, hashes, hash_id }
+        Self { sks, vsks, pks, vpks, hashes, hash_id }
     }
 }
 
@@ -61,8 +69,8 @@ pub fn make_epoch(keys: &Keys, stakes: &[u64], own: usize) -> Arc<ValidatorEpoch
     let validators: Vec<ValidatorInfo> = stakes.iter().enumerate().map(|(i, s)| ValidatorInfo {
         id: ValidatorIndex::new(i as u64),
         stake: Stake::new(*s),
-        pubkey: keys.sks[i].to_pk(),
-        voting_pubkey: keys.vsks[i].to_pk(),
+        pubkey: keys.pks[i].clone(),
+        voting_pubkey: keys.vpks[i].clone(),
         all2all_address: localhost_ip_sockaddr(0),
         disseminator_address: localhost_ip_sockaddr(0),
         repair_requester_address: localhost_ip_sockaddr(0),
